@@ -136,6 +136,45 @@ def make_leftover(framing, K, L):
     return leftover
 
 
+def make_late(framing):
+    """transaction 1 receives nothing (time-out); its reply arrives late -- which can only reach the client if it kept
+    the connection open; transaction 2 (same unit, same function code) must return ITS reply or an error object"""
+    def late(u: int, v: bytes) -> bool:
+        import pymodbus.factory as F
+        assume(len(v) == 4)
+        assume(1 <= u <= 247)
+        assume(v[0] * 256 + v[1] != v[2] * 256 + v[3])
+        cl = make_client(framing, rx=b"")
+        r1 = F.ReadHoldingRegistersRequest(0, 1)
+        r1.unit_id = u
+        try:
+            first = cl.execute(r1)
+        except Exception:
+            return True
+        if not is_error_object(first):
+            return False
+        t1, t2 = r1.transaction_id, (r1.transaction_id + 1) % 65536
+        late_reply = adu.ref_adu(framing, bytes([3, 2, v[0], v[1]]), u, bytes([t1 // 256, t1 % 256]))
+        own_reply = adu.ref_adu(framing, bytes([3, 2, v[2], v[3]]), u, bytes([t2 // 256, t2 % 256]))
+        # the late reply only exists for a client that did not close the connection after the time-out
+        cl.rx = (late_reply if cl.closed == 0 else b"") + own_reply
+        r2 = F.ReadHoldingRegistersRequest(1, 1)
+        r2.unit_id = u
+        try:
+            got = cl.execute(r2)
+        except Exception:
+            return True
+        if is_error_object(got):
+            return True
+        if framing == "tcp":
+            known("KF-client-foreign-reply-accepted", got.transaction_id != r2.transaction_id)
+        if list(got.registers) != [v[2] * 256 + v[3]]:
+            explain("the late reply to the timed-out request (value %r) was returned as the answer to the next request", list(got.registers))
+            return False
+        return True
+    return late
+
+
 def make_stale(framing):
     def stale(t0: bytes, u: bytes, v: bytes) -> bool:
         assume(len(t0) == 2 and len(u) == 2 and len(v) == 4)
@@ -208,6 +247,8 @@ def obligations(tier):
             out.append(Obl("leftover.%s.k%d" % (framing, K), make_leftover(framing, K, L), timeout=T,
                            contracts=("crc-exact",) if framing == "rtu" else contracts[framing], lemmas=lem[framing],
                            bounds="%s client whose framer still holds %d arbitrary bytes from an earlier transaction; then any %d reply bytes (function-code byte 3)" % (framing, K, L)))
+        out.append(Obl("late.%s" % framing, make_late(framing), timeout=T, contracts=contracts[framing], lemmas=lem[framing],
+                       bounds="%s client: a request that times out, its reply arriving late (only if the connection was kept open), then a second request of the same kind; unit and values symbolic" % framing))
         out.append(Obl("stale.%s" % framing, make_stale(framing), timeout=T, contracts=contracts[framing], lemmas=lem[framing],
                        whole_finding="KF-client-foreign-reply-accepted" if framing == "tcp" else None,
                        bounds="%s client: a stale valid frame (older transaction id / other unit) followed by the right reply; ids, units and values symbolic" % framing))
